@@ -293,11 +293,10 @@ def encResize (t : Table) : List Nat → Bytes × Table
     let r := encResize (t.updateMax n') ns
     (encInt 5 32 n' ++ r.1, r.2)
 
-def encodeField (t : Table) (c : Choice) (h : Header) : Bytes × Table :=
-  let pre := encResize t c.resize
-  let t1 := pre.2
+/-- one header field representation (after the size updates) -/
+def encodeFieldCore (t1 : Table) (c : Choice) (h : Header) : Bytes × Table :=
   if c.mode = .indexed ∧ t1.lookup c.idx = some h then
-    (pre.1 ++ encInt 7 128 c.idx, t1)
+    (encInt 7 128 c.idx, t1)
   else
     let nameRef := if (t1.lookup c.idx).map (·.1) = some h.1 then c.idx else 0
     let flag : Nat := match c.mode with
@@ -309,8 +308,12 @@ def encodeField (t : Table) (c : Choice) (h : Header) : Bytes × Table :=
       | _ => 4
     let nm := if nameRef ≠ 0 then encInt pbits flag nameRef
               else flag.toUInt8 :: encStr c.huffName h.1
-    (pre.1 ++ nm ++ encStr c.huffValue h.2,
-     if c.mode = .incr then t1.push h else t1)
+    (nm ++ encStr c.huffValue h.2, if c.mode = .incr then t1.push h else t1)
+
+def encodeField (t : Table) (c : Choice) (h : Header) : Bytes × Table :=
+  let pre := encResize t c.resize
+  let r := encodeFieldCore pre.2 c h
+  (pre.1 ++ r.1, r.2)
 
 def encodeBlock (t : Table) : List Choice → List Header → Bytes × Table
   | _, [] => ([], t)
@@ -318,5 +321,22 @@ def encodeBlock (t : Table) : List Choice → List Header → Bytes × Table
     let r1 := encodeField t (cs.headD {}) h
     let r2 := encodeBlock r1.2 cs.tail hs
     (r1.1 ++ r2.1, r2.2)
+
+/-! ### specification predicates used by the theorems -/
+
+/-- table invariant: the size never exceeds the current maximum, which never
+    exceeds the SETTINGS limit (an `unsigned` in the C) -/
+structure Table.WF (t : Table) : Prop where
+  cur_le : t.curMax ≤ t.maxCap
+  max_lt : t.maxCap < 2 ^ 32
+  size_le : tableSize t.dyn ≤ t.curMax
+
+/-- header fields that survive lshpack's decoder unchanged: non-empty name
+    without trailing isspace() octet (lshpack strips those), and name + value
+    fit the decoder's output buffer of `cap` octets -/
+structure HeaderOk (cap : Nat) (h : Header) : Prop where
+  name_ne : h.1 ≠ []
+  no_trail : trimRight h.1 = h.1
+  fits : h.1.length + h.2.length < cap
 
 end LtVerif.Hpack
